@@ -6,7 +6,7 @@
 (* evalSingleArgument, the final step = the end-of-line checks.                   *)
 (* Texts are sequences of byte codes.  A configuration cfg is a record (see       *)
 (* docs/notes_prog_args.md for the JSON form the driver reads).                   *)
-EXTENDS Integers, Sequences, FiniteSets, TLC
+EXTENDS Integers, Sequences, FiniteSets, TLC, ArgSplit
 
 \* ---------------------------------------------------------------- characters
 Dash == 45
@@ -228,7 +228,7 @@ InitState(cfg) ==
     cnt |-> [a \in 1..NArgs(cfg) |-> 0],
     cleared |-> [a \in 1..NArgs(cfg) |-> FALSE],
     filled |-> [a \in 1..NArgs(cfg) |-> 0],
-    reqd |-> {}, excl |-> {}, hist |-> <<>>, out |-> "run"]
+    reqd |-> {}, excl |-> {}, hist |-> <<>>, depth |-> 0, out |-> "run"]
 
 Fail(st) == [st EXCEPT !.out = "err"]
 Undef(st) == [st EXCEPT !.out = "undef"]
@@ -243,12 +243,34 @@ CardMax(card) == CASE card.t = "max" -> card.a [] card.t = "exact" -> card.a
                    [] card.t = "range" -> card.b [] OTHER -> -1
 HasCard(arg) == EffCard(arg).t # "none"
 
+\* ---- argument files: text -> effective lines (not empty, not starting with '#'), each split like a command string
+RECURSIVE TextLines(_)
+TextLines(t) == IF Len(t) = 0 THEN <<>>
+                ELSE LET p == PosOf(t, 10) IN
+                     IF p = 0 THEN <<t>> ELSE <<SubSeq(t, 1, p - 1)>> \o TextLines(Tail2(t, p + 1))
+EffLines(t) == SelectSeq(TextLines(t), LAMBDA ln : Len(ln) > 0 /\ ln[1] # 35)
+FileWords(t) == [k \in 1..Len(EffLines(t)) |-> SplitStr(EffLines(t)[k])]
+\* files known to an evaluation: cfg.files = sequence of [name, text] (only present when argument-file arguments are used)
+FileIdx(cfg, name) == IF "files" \in DOMAIN cfg THEN {k \in 1..Len(cfg.files) : cfg.files[k].name = name} ELSE {}
+MaxFileDepth == 4
+RECURSIVE RunLines(_, _, _, _)
+RECURSIVE RunWords(_, _, _, _)
+
 \* store value text v (hasv = a value was given) in argument a; count = cardinality applies
 AssignTo(cfg, st, a, hasv, v, count) ==
    LET arg == cfg.args[a]
        c1 == IF count /\ HasCard(arg) THEN st.cnt[a] + 1 ELSE st.cnt[a] IN
    IF arg.depr THEN Fail(st)
    ELSE IF count /\ HasCard(arg) /\ CardMax(EffCard(arg)) >= 0 /\ c1 > CardMax(EffCard(arg)) THEN Fail(st)
+   ELSE IF arg.kind = "argfile" THEN
+        \* argument-file argument: the named file is read at once, line by line, as arguments that do not count for
+        \* the cardinality; afterwards the evaluation goes on behind the file name (files may include files)
+        IF FileIdx(cfg, v) = {} THEN Fail(st)                                  \* file cannot be opened
+        ELSE IF st.depth >= MaxFileDepth THEN Undef(st)
+        ELSE LET text == cfg.files[CHOOSE k \in FileIdx(cfg, v) : TRUE].text
+                 inner == RunLines(cfg, FileWords(text), 1, [st EXCEPT !.cnt[a] = c1, !.has[a] = TRUE, !.depth = st.depth + 1, !.out = "run"]) IN
+             IF inner.out # "run" THEN inner
+             ELSE [inner EXCEPT !.i = st.i, !.pos = st.pos, !.nval = st.nval, !.dashed = st.dashed, !.depth = st.depth]
    ELSE IF arg.kind = "flag" THEN
         [st EXCEPT !.dest[a] = IF arg.unset THEN FALSE ELSE ~arg.init, !.has[a] = TRUE, !.cnt[a] = c1]
    ELSE IF arg.kind = "level" THEN
@@ -365,9 +387,14 @@ StepWords(cfg, words, st, fromCmd) ==
                     ELSE Fail(st)
 
 \* all words of one source (one file line, the environment string, or argv)
-RECURSIVE RunWords(_, _, _, _)
 RunWords(cfg, words, st, fromCmd) ==
    IF st.out # "run" THEN st ELSE RunWords(cfg, words, StepWords(cfg, words, st, fromCmd), fromCmd)
+
+\* the lines of one argument file (or the pre-sources), one word list after the other; cardinality not counted
+RunLines(cfg, lines, k, st) ==
+   IF k > Len(lines) \/ st.out # "run" THEN st
+   ELSE LET s1 == RunWords(cfg, lines[k], [st EXCEPT !.i = 1, !.pos = 0, !.nval = FALSE, !.dashed = FALSE], FALSE) IN
+        IF s1.out = "eol" THEN RunLines(cfg, lines, k + 1, [s1 EXCEPT !.out = "run"]) ELSE s1
 
 \* restart the cursor for the next source; "last argument" is reset after argv only (as documented
 \* for repeated use of the same object), so it carries over from one file line to the next
